@@ -9,16 +9,16 @@
 (***************************************************************************)
 EXTENDS Dewey, TLC, Json, SequencesExt
 
-CONSTANTS MaxTok, Alphabet   \* "quick": reduced token alphabet; "full": all 29 tokens; "deep": 14 tokens, for MaxTok = 3
+CONSTANTS MaxTok, Alphabet   \* "quick": reduced token alphabet; "full": all 31 tokens; "deep": 14 tokens, for MaxTok = 3
 
 TokensFull == { Codes("0"), Codes("1"), Codes("2"), Codes("10"), Codes("007"), Codes("."), Codes("_"),
             Codes("alpha"), Codes("ALPHA"), Codes("Beta"), Codes("rc"), Codes("pre"), Codes("PRE"),
             Codes("pl"), Codes("nb"), Codes("NB3"), Codes("nb12"), Codes("a"), Codes("b"), Codes("z"),
-            Codes("A"), Codes("Q"), <<233>>, Codes("+"), Codes("-"), Codes("~"), <<178>>, <<1635>>, <<65299>> }
+            Codes("A"), Codes("Q"), <<233>>, Codes("+"), Codes("-"), Codes("~"), <<178>>, <<1635>>, <<65299>>, <<8490>>, <<304>> }
 TokensQuick == { Codes("0"), Codes("1"), Codes("10"), Codes("."), Codes("_"),
             Codes("alpha"), Codes("Beta"), Codes("rc"), Codes("PRE"),
             Codes("pl"), Codes("NB3"), Codes("nb12"), Codes("a"), Codes("z"),
-            Codes("Q"), <<233>>, Codes("+"), <<178>>, <<1635>> }
+            Codes("Q"), <<8490>>, Codes("+"), <<178>>, <<1635>> }   \* 8490 = KELVIN SIGN: not ASCII, lower-cases to 'k' 
 TokensDeep == { Codes("0"), Codes("1"), Codes("10"), Codes("."), Codes("_"), Codes("alpha"), Codes("beta"), Codes("rc"),
                 Codes("PRE"), Codes("pl"), Codes("nb1"), Codes("a"), Codes("Z"), Codes("+") }
 Tokens == CASE Alphabet = "full" -> TokensFull [] Alphabet = "deep" -> TokensDeep [] OTHER -> TokensQuick
